@@ -10,6 +10,9 @@ from __future__ import annotations
 
 import re
 
+# helper snippets of the emitter, in stitch order (FLOORDIV / MOD: the templates for Python's // and %, absent from older emitters)
+SNIPPET_KEYS = ("LCD", "LIST", "LEN", "FLOORDIV", "MOD")
+
 RANK = {"include": 0, "helper": 1, "global": 2, "proto": 3, "function": 4, "ultra": 5, "setup": 6, "loop": 7}
 
 IDENT = re.compile(r"[A-Za-z_]\w*")
@@ -133,7 +136,9 @@ def read_sketch(cpp: str, consts: dict, fn_names):
     if len(code) != len(cpp):
         raise SplitError("internal: strip_code changed the length")
     regions = []
-    for key in ("LCD", "LIST", "LEN"):
+    for key in SNIPPET_KEYS:
+        if key not in consts:
+            continue
         sn = consts[key]
         k = cpp.find(sn)
         if k >= 0:
